@@ -91,10 +91,21 @@ def p_conj(c, style=None):
     return p_expr(e, style)
   if k == 'unify':
     op = '=' if style and style.get('single_eq') else '=='
+    form = style.get('combine_form') if style else None
+    if form and c[1][0] == 'var' and c[2][0] == 'combine' and c[2][1] not in ('ArgMin', 'ArgMax'):
+      agg, e, body = c[2][1], c[2][2], c[2][3]
+      if form == 1:    # x Op= (e :- body)
+        return '%s %s= (%s :- %s)' % (c[1][1], agg, p_expr(e, style), p_conjs(body, style))
+      if form == 2:    # x == (combine Op= e :- body)
+        return '%s == (combine %s= %s :- %s)' % (c[1][1], agg, p_expr(e, style), p_conjs(body, style))
     return '%s %s %s' % (p_expr(c[1], style), op, p_expr(c[2], style))
   if k == 'in':
     return '%s in %s' % (p_expr(c[1], style), p_expr(c[2], style))
   if k == 'not':
+    if style and style.get('neg_long'):
+      return 'Max{1 :- %s} is null' % p_conjs(c[1], style)
+    if style and style.get('implication') and len(c[1]) >= 2 and c[1][-1][0] == 'not':
+      return '((%s) => (%s))' % (p_conjs(c[1][:-1], style), p_conjs(c[1][-1][1], style))
     if len(c[1]) == 1 and c[1][0][0] == 'atom':
       return '~%s' % p_conj(c[1][0], style)
     return '~(%s)' % p_conjs(c[1], style)
@@ -140,6 +151,10 @@ def p_head(name, head, style=None):
         value = ' %s %s' % (HEAD_AGG_SYNTAX[op], inner)
       else:
         parts.append('%s? %s %s' % (f, HEAD_AGG_SYNTAX[op], inner))
+  if style and style.get('explicit_value'):
+    # the value column is the last one in the short form; keep that order in the long form
+    vals = [q for q in parts if q.startswith('logica_value')]
+    parts = [q for q in parts if not q.startswith('logica_value')] + vals
   return '%s(%s)%s' % (name, ', '.join(parts), value or '')
 
 
@@ -158,6 +173,13 @@ def p_program(prog, style=None, annotations=()):
   lines = ['@Engine("sqlite");'] + list(annotations)
   for d in prog:
     for r in d['rules']:
+      if style and style.get('or_as_rules') and r.get('body') and r['body'][0] == 'and' and \
+          any(q[0] == 'or' for q in r['body'][1]):
+        i = [k for k, q in enumerate(r['body'][1]) if q[0] == 'or'][0]
+        for alt in r['body'][1][i][1]:
+          nb = ('and', r['body'][1][:i] + [alt] + r['body'][1][i + 1:])
+          lines.append(p_rule(d['name'], dict(r, body=nb), style))
+        continue
       lines.append(p_rule(d['name'], r, style))
   return '\n'.join(lines) + '\n'
 
@@ -536,7 +558,10 @@ class Gen:
     return cs, local
 
   def gen_negation(self, bound):
-    cs, _ = self.gen_inner(bound)
+    cs, local = self.gen_inner(bound)
+    if self.p('implication'):   # ~(A, ~B), printable as A => B
+      cs2, _ = self.gen_inner(dict(bound, **local))
+      cs = cs + [('not', cs2)]
     return ('not', cs)
 
   def gen_combine_expr(self, bound):
@@ -614,6 +639,8 @@ class Gen:
         for j in range(r.choice([1, 1, 2])):
           op = r.choice(['Sum', 'Min', 'Max', 'Count', 'List'] + (['Set'] if self.p('set_agg') else []))
           f = r.choice(['s', 'm', 'n', 'agg'])[:] + str(j)
+          if j == 0 and self.p('value_agg'):
+            f = 'logica_value'
           if op == 'Sum':
             t = 'int'
           elif op == 'Count':
